@@ -229,15 +229,17 @@ def setattrUndef (O : Oracles) (c : ClassOpts) (fields : List (String × FieldDe
         | .err _ => x.nones       -- a rejected assignment restores `_none_fields` (810b853)
       ({ x with attrs := r.1, nones := ns }, r.2)
 
-/-- the table row of mutator `m` on the wrapper of field `f` re-assigns the field -/
-def callReassigns (tbl : List MethodRec) (fields : List (String × FieldDecl)) (f : String) (m : NOp) : Bool :=
-  match lookup f fields with
-  | none => false
-  | some fd => match wrapperKind fd with
+/-- the table row of mutator `m` on the wrapper the current value of field `f` is stored in
+    re-assigns the field -/
+def callReassigns (tbl : List MethodRec) (O : Oracles) (fields : List (String × FieldDecl)) (attrs : Attrs)
+    (f : String) (m : NOp) : Bool :=
+  match lookup f fields, lookup f attrs with
+  | some fd, some cur => match wrapperKindAt O fd cur with
     | none => false
     | some kind => match findRec tbl kind m.name with
       | none => false
       | some r => r.validated
+  | _, _ => false
 
 /-- `Structure.__setattr__` refuses an immutable structure only once `_instantiated` is set;
     `__delitem__` and the wrappers' guards look at the class alone -/
@@ -254,7 +256,7 @@ def stepI (tbl : List MethodRec) (O : Oracles) (c : ClassOpts) (fields : List (S
     let r := step tbl O c fields x.attrs (.call f m)
     -- a wrapper mutator that re-assigns the mutated copy goes through `Structure.__setattr__`, which
     -- on an `_enable_undefined_value` class un-records an explicit `None` of that field on success
-    let ns := if x.undef && r.2 == .ok && callReassigns tbl fields f m
+    let ns := if x.undef && r.2 == .ok && callReassigns tbl O fields x.attrs f m
               then x.nones.filter (fun n => n != f) else x.nones
     ({ x with attrs := r.1, nones := ns }, r.2)
   | op =>
